@@ -28,7 +28,7 @@ Record cstate := CS {
   c_dlc    : bool;                 (* SetReadDeadline fails on a closed carrier *)
   c_clfail : bool;                 (* the first carrier.Close returns an error *)
   (* ghost history, newest first *)
-  c_sent   : list (N * list byte); (* (sender, encoding) of every Send whose bytes were handed to the writer *)
+  c_sent   : list (N * list byte); (* (sender, encoding) of every Send whose bytes were handed to a live writer *)
   c_acc    : list (N * list byte)  (* those that returned nil *)
 }.
 
@@ -87,7 +87,9 @@ Section CN.
         (fst (carrier_close s), CREnc)
     | CSend who (Some bs) async =>
         let '(e', r) := mw_write (c_enc s) bs (negb async) in
-        let reached := negb (is_some (e_aerr (c_enc s))) in     (* bufio.Writer.Write was called *)
+        (* the bytes were handed to a live buffered writer (no stored flush error to report
+           first, no sticky bufio error that makes Write return at once) *)
+        let reached := negb (is_some (e_aerr (c_enc s))) && negb (is_some (e_berr (c_enc s))) in
         let sent' := if reached then (who, bs) :: c_sent s else c_sent s in
         match r with
         | None => (CS e' (c_dec s) (c_closed s) (c_lim s) (c_dlleft s) (c_dlc s) (c_clfail s)
